@@ -13,6 +13,10 @@ REJECT = ('TranslationError', 'TypeError', 'NotImplementedError', 'ExprEvalError
           'IndexError', 'ValueError', 'AstError', 'DecompileError', 'InvalidQuery', 'KeyError', 'AssertionError')
 
 
+class Rejected(Exception):
+    """pony refused the program (TranslationError, TypeError, ...): the allowed outcome"""
+
+
 class Program(object):
     """a query program: generator-expression source + caller scope specification
     scope: {name: ('int'|'str'|'bool', concrete_default)}; methods: list of (method name, args source) applied to the Query"""
@@ -200,10 +204,16 @@ def obligation(sql_rows, py_rows, entity_result):
 def encode(db, S, prog, dialect, limit=None, offset=None):
     """-> dict(sql, sql_rows, py_rows, assumptions, entity_result, ...) or raises Unmodelled / returns rejection"""
     from pony.orm import db_session
-    with db_session:
-        q = build_query(db, prog)
-        sql, params, translator = real_sql(db, q, limit, offset)
-        qvars = dict(q._vars)
+    try:
+        with db_session:
+            q = build_query(db, prog)
+            sql, params, translator = real_sql(db, q, limit, offset)
+            qvars = dict(q._vars)
+    except Exception as e:
+        # only what PONY raises while building / translating the query is the property's "raises an error instead";
+        # an exception in the encoder below is a harness error and propagates
+        if type(e).__name__ in REJECT: raise Rejected('%s: %s' % (type(e).__name__, str(e)[:120]))
+        raise
     paramstyle = db.provider.paramstyle
     tree = sqlparse.parse(sql, dialect, paramstyle)
     scope_syms, cons = sym_scope(prog.scope)
@@ -253,10 +263,8 @@ def decide(db, S, prog, dialect, timeout_ms=10000, extra_assumptions=(), exclude
         return dict(verdict='unmodelled', detail='SQL text not parsed: %s' % e, time_s=time.time() - t0)
     except SQLError as e:
         return dict(verdict='sat', detail='the database raises for every input: %s' % e, model=None, sql=None, time_s=time.time() - t0, always_error=True)
-    except Exception as e:
-        if type(e).__name__ in REJECT:
-            return dict(verdict='rejected', detail='%s: %s' % (type(e).__name__, str(e)[:120]), time_s=time.time() - t0)
-        raise
+    except Rejected as e:
+        return dict(verdict='rejected', detail=str(e), time_s=time.time() - t0)
     s = z3.Solver(); s.set('timeout', timeout_ms)
     s.add(*enc['assumptions']); s.add(*extra_assumptions)
     if getattr(prog, 'int_range', None):
@@ -407,23 +415,29 @@ def encode_chain(db, S, prog, dialect):
     elif final[0] == 'first': window = (0, 1)
     elif final[0] == 'exists': window = (0, 1)
     elif final[0] == 'get': window = (0, 2)
-    with db_session:
-        q = build_query(db, prog)
-        if final[0] == 'aggr':
-            sql, params, translator = real_sql(db, q, None, None, final[1], final[2] if len(final) > 2 else None)
-        else:
-            # run the REAL method up to the point where it fetches: intercept Query._actual_fetch / QueryResult
-            lim_off = capture_fetch(q, final)
-            if final[0] == 'first':
-                q2, (limit, offset) = lim_off
-                sql, params, translator = real_sql(db, q2, limit, offset)
-                q = q2
+    try:
+        with db_session:
+            q = build_query(db, prog)
+            if final[0] == 'aggr':
+                sql, params, translator = real_sql(db, q, None, None, final[1], final[2] if len(final) > 2 else None)
             else:
-                limit, offset = lim_off
-                sql, params, translator = real_sql(db, q, limit, offset)
-        qvars = dict(q._vars)
-        distinct_flag = q._distinct
-        tr_distinct = translator.distinct
+                # run the REAL method up to the point where it fetches: intercept Query._actual_fetch / QueryResult
+                lim_off = capture_fetch(q, final)
+                if final[0] == 'first':
+                    q2, (limit, offset) = lim_off
+                    sql, params, translator = real_sql(db, q2, limit, offset)
+                    q = q2
+                else:
+                    limit, offset = lim_off
+                    sql, params, translator = real_sql(db, q, limit, offset)
+            qvars = dict(q._vars)
+            distinct_flag = q._distinct
+            tr_distinct = translator.distinct
+    except Unmodelled:
+        raise
+    except Exception as e:
+        if type(e).__name__ in REJECT: raise Rejected('%s: %s' % (type(e).__name__, str(e)[:120]))
+        raise
     paramstyle = db.provider.paramstyle
     tree = sqlparse.parse(sql, dialect, paramstyle)
     exists_only = False
@@ -585,10 +599,8 @@ def decide_chain(db, S, prog, dialect, timeout_ms=10000, exclude_regions=()):
         return dict(verdict='unmodelled', detail=str(e), time_s=time.time() - t0)
     except sqlparse.SQLSyntaxError as e:
         return dict(verdict='unmodelled', detail='SQL text not parsed: %s' % e, time_s=time.time() - t0)
-    except Exception as e:
-        if type(e).__name__ in REJECT:
-            return dict(verdict='rejected', detail='%s: %s' % (type(e).__name__, str(e)[:120]), time_s=time.time() - t0)
-        raise
+    except Rejected as e:
+        return dict(verdict='rejected', detail=str(e), time_s=time.time() - t0)
     s = z3.Solver(); s.set('timeout', timeout_ms)
     s.add(*enc['assumptions'])
     for k in exclude_regions:
@@ -648,15 +660,19 @@ def decide_delete(db, S, prog, dialect, timeout_ms=10000, exclude_regions=()):
     from pony.orm import db_session
     t0 = time.time()
     try:
-        with db_session:
-            q = build_query(db, prog)
-            translator = q._translator
-            sql_ast = translator.construct_delete_sql_ast()
-            builder = db.provider.sqlbuilder_cls(db.provider, sql_ast)
-            sql = builder.sql
-            params = [x for x in builder.result if hasattr(x, 'paramkey')]
-            qvars = dict(q._vars)
-            ent = translator.expr_type.__name__
+        try:
+            with db_session:
+                q = build_query(db, prog)
+                translator = q._translator
+                sql_ast = translator.construct_delete_sql_ast()
+                builder = db.provider.sqlbuilder_cls(db.provider, sql_ast)
+                sql = builder.sql
+                params = [x for x in builder.result if hasattr(x, 'paramkey')]
+                qvars = dict(q._vars)
+                ent = translator.expr_type.__name__
+        except Exception as e:
+            if type(e).__name__ in REJECT: raise Rejected('%s: %s' % (type(e).__name__, str(e)[:120]))
+            raise
         paramstyle = db.provider.paramstyle
         tree = sqlparse.parse(sql, dialect, paramstyle)
         if tree[0] != 'delete': raise Unmodelled('not a DELETE statement: %s' % sql)
@@ -689,10 +705,8 @@ def decide_delete(db, S, prog, dialect, timeout_ms=10000, exclude_regions=()):
         return dict(verdict='unmodelled', detail=str(e), time_s=time.time() - t0)
     except sqlparse.SQLSyntaxError as e:
         return dict(verdict='unmodelled', detail='SQL text not parsed: %s' % e, time_s=time.time() - t0)
-    except Exception as e:
-        if type(e).__name__ in REJECT:
-            return dict(verdict='rejected', detail='%s: %s' % (type(e).__name__, str(e)[:120]), time_s=time.time() - t0)
-        raise
+    except Rejected as e:
+        return dict(verdict='rejected', detail=str(e), time_s=time.time() - t0)
     s = z3.Solver(); s.set('timeout', timeout_ms)
     s.add(*S.constraints); s.add(*cons); s.add(*pcons)
     if penv._undefined: s.add(z3.Not(z3.Or(penv._undefined)))
